@@ -130,7 +130,9 @@ package gohbase
 //@   modifies X.ctxdone, X.regionstate, X.callregion, X.unavail, X.token, X.regclient
 //@   hides X.lookups, X.slept, X.nsleeps, X.attempts, X.closereq "the ghost counters of attempts and waits are per operation: those of a nested region lookup (its own meta scan and its own back-off) are accounted in lookupRegion's contract, not added to the counters of the call being routed"
 //@   panics never[C01]
-//@   ensures r1 == nil ==> r0 != nil
+// a caller is never handed a nil connection (it would panic queueing its request): a waiter re-reads the connection after
+// it is woken and goes round again if the region lost it meanwhile (C09)
+//@   ensures[C09,C01] r1 == nil ==> r0 != nil
 //@   ensures[C01] r1 == nil ==> ghostat("callregion", rpc) != nil && r0 == ghostat("regclient", ghostat("callregion", rpc))
 //@   ensures[C01] r1 == nil && !special(c, rpc.Table()) ==> routes(asiface(ghostat("callregion", rpc), "hrpc.RegionInfo"), rpc.Table(), rpc.Key())
 
@@ -498,6 +500,11 @@ package gohbase
 //@   at call clientDown#1 assume-shared rccNonNil(c.clients)
 //@   at call clientDown#2 assume-shared rccNonNil(c.clients)
 //@   requires establishRegionOverride == nil && sleepAndIncreaseBackoffOverride == nil && reg != nil && ghostat("unavail", reg) == 1
+// the connection is created with the client's own settings (C18: its read timeout is the configured region read timeout,
+// for the master connection too; C20: for the address that was looked up; C05/C15: queue size, flush interval, user, codec)
+//@   at call newRegionClientFn#1 assert[C18,C20,C05] arg0 == addr && arg1 == c.clientType && arg2 == c.rpcQueueSize && arg3 == c.flushInterval && arg4 == c.effectiveUser && arg5 == c.regionReadTimeout && arg6 == nil
+// (the regionserver branch builds its connection inside the factory literal handed to clientRegionCache.put; the literal is
+// represented by the assumed contract of put's parameter and its body is not executed by the generator: not under contract)
 // (closedexit is ghost state of this invocation: 0 when a goroutine starts with it)
 //@   requires[local] ghost("closedexit") == 0
 //@   requires c.logger != nil && c.adminRegionInfo != nil && c.metaRegionInfo != nil
@@ -597,6 +604,10 @@ package gohbase
 // the close request does not inherit the scan's own context (which may be the reason the scan ends): its context is live
 // when the request is built, so it can still be sent after a cancellation
 //@   at call NewScanRange#1 assert[C14] ghostat("ctxdone", arg0) == 0
+// the close request is routed by its key: it carries the start row of the region whose scanner is open (the scanner's
+// current start row), not the scan's original start row - that one lies in the first region, on possibly another server,
+// which does not know the scanner id; the open scanner would keep its lease
+//@   at call NewScanRange#1 assert[C14] sameslice(arg2, s.startRow) && arg1 == s.rpc.Table()
 // (NewScanRange fails only when an option is rejected; ScannerID, CloseScanner and NumberOfRows are valid for scans)
 //@   at call panic#1 assume-shared err == nil
 
@@ -642,7 +653,8 @@ package gohbase
 //@   requires scannerWF(s) && !s.closed
 //@   modifies F.gohbase.scanner.closed, F.gohbase.scanner.curRegionScannerID, F.gohbase.scanner.startRow, V.map[string]int64, D.map[string]int64, C.map[string]int64, X.attempts, X.ctxdone, X.regionstate, X.callregion, X.closereq
 //@   panics never[C14]
-//@   ensures[C14] r1 != nil ==> s.closed && r0 == nil
+// (C06: end-of-scan is reported only by a scanner that is done - an empty response that merely ends a region goes on to the next region)
+//@   ensures[C14,C06] r1 != nil ==> s.closed && r0 == nil
 //@   ensures[C14] r1 == nil ==> len(r0) > 0 && resultsWF(r0) && forall(k, 0 <= k && k < len(r0), ghostold("alloc", r0[k]) != 1)
 //@   ensures[C14] scannerWF(s)
 //@   loop 1 invariant[C14] scannerWF(s) && !s.closed
